@@ -92,13 +92,15 @@ def explicit(tier, seed):  # noqa: C901
         # user code raises inside (nested) child contexts: the last API calls are the contexts' FAIL records
         "child-raises": [{"k": "step", "val": 1}, {"k": "child", "body": [{"k": "step", "val": 2}, {"k": "raise", "cls": "ValueError", "msg": "in child"}]}],
         "nested-child-raises": [{"k": "child", "body": [{"k": "child", "body": [{"k": "step", "val": 2}, {"k": "raise", "cls": "UserErr", "msg": "deep"}]}]}],
+        # a step result too large to share a batch with its own START: its SUCCEED waits in the overflow queue while the START's call fails
+        "big-step": [{"k": "step", "script": [{"do": "ok", "big": 800 * 1024}]}, {"k": "step", "val": 2}],
         # concurrent producers: while the failing call is in flight other records queue up behind it
         "par": [{"k": "par", "branches": [{"body": [{"k": "step", "val": b}, {"k": "step", "val": b + 10}, {"k": "step", "val": b + 20}]} for b in range(3)],
                  "cfg": {"preset": "all_completed"}}, {"k": "step", "val": 9}],
     }
     for sname, body in shapes.items():
         extra = {"prog_extra": {"ret": {"big": 6 * 1024 * 1024 + 5}}} if sname == "big" else {}
-        ncalls = {"seq": 5, "child": 4, "big": 2, "child-raises": 5, "nested-child-raises": 5, "par": 6}[sname]
+        ncalls = {"seq": 5, "child": 4, "big": 2, "child-raises": 5, "nested-child-raises": 5, "par": 6, "big-step": 3}[sname]
         for k in range(1, ncalls + 1):
             for err in (ERRS if tier != "quick" else rng.sample(ERRS, 4)):
                 for when in ("before", "after"):
@@ -145,7 +147,7 @@ SPEC = Spec(
     "ExecutionError, ValidationError, CallbackError, SerDesError, CallableRuntimeError, InvocationError, StepInterruptedError, BaseExceptions "
     "in a branch) x result kinds (JSON, None, NaN, non-serializable, sizes around the 6 MB response limit in ASCII, CJK, accented, emoji and quote-heavy text, oversized errors) x malformed "
     "events and input payloads x checkpoint error category (5xx, 429, 4xx, Invalid Checkpoint Token, non-botocore) at every API call "
-    "position of six program shapes (the failing request answered at once or kept in flight 30 ms while other records queue up behind it) (incl. child contexts whose body raises, so that the failing call is a context's FAIL record), request-lost and response-lost, incl. the large-result checkpoint; plus random programs. Oracle: "
+    "position of seven program shapes (the failing request answered at once or kept in flight 30 ms while other records queue up behind it) (incl. child contexts whose body raises, so that the failing call is a context's FAIL record), request-lost and response-lost, incl. the large-result checkpoint; plus random programs. Oracle: "
     "outcome shape (Status + Result-JSON | Error object | neither, or an EXECUTION record when the payload is empty), the outcome as encoded by the runtime fits the Lambda response limit, raise only for "
     "InvocationError-family / retriable checkpoint errors / malformed payloads, expected classification per scenario, no dex-handler "
     "thread alive afterwards, and the invocation ends (logical hang rule). A class = (scenario label, outcome kind).",
